@@ -320,6 +320,7 @@ package webdav
 //@   assigns ghost:rstatus, ghost:hv, ghost:fhNode, ghost:wbody
 //@   ensures G1: err == nil <==> validName(r.URL.Path) && !absent(lnode(r.URL.Path)) && !isDir(lnode(r.URL.Path))
 //@   ensures G2: err == nil ==> wstatus(w) != 0 && (plainGet(r) ==> wstatus(w) == 200)
+//@   ensures G2b: err == nil ==> wstatus(w) < 500
 //@   -- C04: the tag announced is the tag of the stored resource; C01: the body is the stored content
 //@   ensures G3: err == nil ==> hget(hv, respHeader(w), "ETag") == quote(tagOf(lnode(r.URL.Path)))
 //@   ensures G4: err == nil && wstatus(w) == 200 && r.Method != "HEAD" ==> smt("int", "(select $0 $1)", wbody, w) == contentOf(data, lnode(r.URL.Path))
@@ -412,3 +413,26 @@ package webdav
 //@   |   && (forall i int, j int :: 0 <= i && i < j && j < len(servedMS.Responses) ==> rdNode(i) != rdNode(j))
 //@   ensures PF6: r.Method == "PROPFIND" && validName(r.URL.Path) && absent(lnode(r.URL.Path)) ==> wstatus(w) == 404 || wstatus(w) == 400
 //@   ensures PP: r.Method == "PROPPATCH" ==> wstatus(w) == 400 || wstatus(w) == 403
+//@   -- C13: a 5xx answer stems from the environment only (here: the upload stream of a PUT breaking off)
+//@   ensures C13: wstatus(w) >= 500 ==> r.Method == "PUT" && readerFails(r.Body)
+
+//@ -- ---------------------------------------------------------------------------------------
+//@ -- The principal helper (C13: a complete answer for every method, 4xx for a malformed PROPFIND; C11: one response
+//@ -- with one href)
+//@ func webdav.servePrincipalPropfind(w, r, options) (err)
+//@   requires R1: w != nil && wstatus(w) == 0 && validReq(r) && options != nil
+//@   requires R2: forall j int :: 0 <= j && j < len(options.HomeSets) ==> options.HomeSets[j] != nil
+//@   allocates
+//@   ensures P1: err == nil ==> wstatus(w) == 207 && servedMS != nil && len(servedMS.Responses) == 1 && len(servedMS.Responses[0].Hrefs) == 1 && servedMS.Responses[0].Hrefs[0].Path == r.URL.Path
+//@   ensures P2: err != nil ==> (httpCode(err) == 400 && !hostPath(err) && wstatus(w) == 0) || (fromEnv(err) && wstatus(w) == 207)
+//@   loop 1 invariant I1: props != nil && wstatus(w) == 0 && (forall k xml.Name :: has(props, k) ==> props[k] != nil)
+//@ func webdav.ServePrincipal(w, r, options)
+//@   requires R1: w != nil && wstatus(w) == 0 && validReq(r) && options != nil && respHeader(w) != r.Header && !leakTracked
+//@   requires R2: forall j int :: 0 <= j && j < len(options.HomeSets) ==> options.HomeSets[j] != nil
+//@   allocates
+//@   ensures S1: wstatus(w) != 0
+//@   ensures S2: wstatus(w) < 500
+//@   ensures S3: r.Method != "OPTIONS" && r.Method != "PROPFIND" ==> wstatus(w) == 405
+//@   ensures S4: r.Method == "PROPFIND" ==> wstatus(w) == 207 || wstatus(w) == 400
+//@   ensures S5: r.Method == "OPTIONS" ==> wstatus(w) == 204
+//@   loop 1 invariant I1: fresh(caps) && wstatus(w) == 0
